@@ -89,7 +89,32 @@ def fresh_twin_stage(ctx, escalate=False):
     ctx.coverage["evaluations"] = ctx.coverage.get("evaluations", 0) + nchk
     for c in hist: ctx.classes.add("twin " + " ".join(c.tags))
 
+def exhaustive_masks_stage(ctx):
+    """all 2^8 argument subsets x reuse x solve-in-between for ONE update on small problems (thorough; a slice in quick):
+    exact correspondence with the model on all five back ends + the certificate / KKT-consistency oracles"""
+    import itertools
+    rng = ctx.rng
+    NAMES = ["P", "c", "A", "b", "G", "h", "lb", "ub"]
+    masks = list(itertools.product([0, 1], repeat=8))
+    if ctx.quick(): masks = [m for i, m in enumerate(masks) if i % 16 == ctx.seed % 16]
+    cases = []
+    for mi, mk in enumerate(masks):
+        for reuse in (True, False):
+            for between in (True, False):
+                pb = G.gen_problem(rng, n=rng.choice([2, 3]), p=1, m=rng.choice([1, 2]))
+                names = set(n_ for n_, b in zip(NAMES, mk) if b)
+                pb2, names2 = G.perturb(rng, pb, names)
+                st = list(G.FRIENDLY) + [("max_iter", "12"), ("preconditioner_iter", str(rng.choice([0, 2])))]
+                ops = ["CPBITS 64", G.op_setup(pb)] + ([G.op_solve()] if between else []) + [G.op_update(pb2, names2, reuse=reuse), G.op_solve()]
+                k = 1; pbs = {0: pb}
+                if between: pbs[k] = pb; k += 1
+                pbs[k] = pb2; pbs[k + 1] = pb2
+                cases.append(SS.Case("x%d_%d%d" % (mi, reuse, between), st, ops, pbs, ["mask" + "".join(map(str, mk)), "reuse%d" % reuse, "between%d" % between]))
+    SS.run_suite(ctx, cases, preconds=("ruiz",), name="c04masks", codes=("C01", "C04", "C08.absent", "C08.finite", "C15"))
+    ctx.coverage["exhaustive_masks"] = "%d of 256 argument subsets x reuse x solve-in-between (all 256 in the thorough tier)" % len(masks)
+
 def twin_and_escalate(ctx):
+    exhaustive_masks_stage(ctx)
     fresh_twin_stage(ctx)
     if any(not o["ok"] for o in ctx.obligations) and not ctx.violations:
         fresh_twin_stage(ctx, escalate=True)
